@@ -96,6 +96,10 @@ def _nested(shape: list[int], fn) -> Any:
 def invoke(fid: str, kwargs: dict[str, Any], res: Any = None) -> Any:
     """Body of every harness-built user function."""
     fd = REG[fid]
+    # a user function must receive VALUES: a storage object handed over instead of the array it holds is a different thing
+    # (terms.canon reads storage objects through to_array() - right for results, wrong for arguments)
+    kwargs = {p: (Term(f"#storage-object:{type(v).__name__}") if hasattr(v, "to_array") and hasattr(v, "dump") else v)
+              for p, v in kwargs.items()}
     kw_json = {p: to_json(kwargs[p]) for p in fd["params"]}
     base = {"f": fd["name"], "fid": fid, "kwargs": kw_json, "pid": os.getpid(), "n": -1}
 
